@@ -221,6 +221,31 @@ Fixpoint assoc_res (i : nat) (l : list (nat * cres)) : cres :=
 Definition results_of (store : N) (v1 : bool) (ops : list cop) (tr : list ev) : list cres :=
   map (fun i => assoc_res i (exec_atomic store v1 ops (lin_order tr) s_init)) (seq 0 (List.length ops)).
 
+(* ---- (3') the same for ANY sequential model -------------------------------------------------
+   [step] is the sequential step function of some model of an object (for instance
+   StoreSpec.impl_step, the dispatcher onto the functions of Store.v, or Deferred.d_step).  In the
+   atomic-section semantics every call executes [step] once, atomically, at its ELin event. *)
+Section GenLin.
+  Variables St Op Res : Type.
+  Variable step : St -> Op -> St * Res.
+  Variable dflt : Op.
+  (* the results of running the operations l one after the other *)
+  Fixpoint gexec (s : St) (l : list Op) : list Res :=
+    match l with
+    | [] => []
+    | o :: t => let '(s', r) := step s o in r :: gexec s' t
+    end.
+  Definition ops_along (ops : list Op) (w : list nat) : list Op := map (fun i => nth i ops dflt) w.
+  (* what each call returns in the atomic-section execution tr: (call number, result) *)
+  Definition gresults (s0 : St) (ops : list Op) (tr : list ev) : list (nat * Res) :=
+    combine (lin_order tr) (gexec s0 (ops_along ops (lin_order tr))).
+  (* a timestamped history with these results is linearizable with respect to [step]: some order w of
+     all the calls respects real time and the sequential run along w returns exactly these results *)
+  Definition glinearizable (s0 : St) (ops : list Op) (hist : list (N * N)) (res : list (nat * Res)) : Prop :=
+    exists w, perm_ok (List.length ops) w = true /\ rt_ok hist w = true /\
+              res = combine w (gexec s0 (ops_along ops w)).
+End GenLin.
+
 (* ---- OnPut callbacks of the deferred writer -----------------------------------------------
    DeferredCarWriter.Put (after the closed check, under lk) calls every registered callback in
    registration order and removes the once-only ones.  Callbacks are registered before the
